@@ -159,6 +159,10 @@ theorem C07_image_keys (E : Env) (path : Str) (u svc : SUnit) (r : Str) (hnd : (
     exact ((kk_addS _ _ _ _).trans (kk_addEntry _ _ _ _)).trans (kk_oneShot _ _)
   exact fun S k hk' hS => unmanaged_of_keys (startService path u) u svc _ _ (by decide) (keys_startService path u hnd) hk S k hk' hS
 
+/-- T1: the managed pairs are exactly the (section, key) pairs that convert.rs writes with `add` / `set` / `prepend` /
+    `add_raw` (extracted from the source on every run; a write with a non-literal key makes the extraction fail) -/
+theorem C07_managed_conforms : (∀ p ∈ Gen.writtenPairs, p ∈ managed) ∧ (∀ p ∈ managed, p ∈ Gen.writtenPairs) := by decide
+
 /-- non-vacuity: `Restart=` … no: `TimeoutStartSec`, `Description`, `Documentation`, `ExecReload`, `User` are not managed -/
 example : (s "Service", s "TimeoutStartSec") ∉ managed ∧ (s "Unit", s "Description") ∉ managed ∧ (s "Unit", s "Documentation") ∉ managed
     ∧ (s "Service", s "ExecReload") ∉ managed ∧ (s "Install", s "WantedBy") ∉ managed := by decide
